@@ -116,8 +116,9 @@ def check(col: Collector, tier: str):
     ok = False
     if len(prom) == 1 and left_hole == "{" + src(prom[0].targets[0]) + "}":
         gs = guards(vb.node, prom[0], pm)
-        cond = " ".join(src(t) for t, tr_ in gs if tr_)
-        ok = "ast.Div" in cond and cond.count(".type == 'int'") + cond.count('.type == "int"') == 2 and "left" in cond and "right" in cond
+        atoms = {src(t).replace('"', "'") for t, tr_ in gs if tr_ and not isinstance(t, ast.BoolOp)}
+        ints = {a for a in atoms if a.endswith(".type == 'int'")}
+        ok = any("ast.Div" in a for a in atoms) and len(ints) == 2 and any("left" in a for a in ints) and any("right" in a for a in ints)
     col.add("C13.R2", vb.short, "int/int-division-promoted", ok,
             "when both operands are typed int the emitted C++ must convert an operand to double (static_cast<double>(left)/right); (a/b) on two "
             "ints truncates: Count()/2 on three jets gives 1, Python gives 1.5", vb.loc)
